@@ -319,7 +319,13 @@ pub fn run_group(seed: u64, gi: u64, base: &InstSpec, tier: &FTier, st: &mut Sta
     let opts = ExecOpts { record: false, keep_tail: 0, rec_polls: false, check_isolation: false, rec_items: false };
     let mut sub: u64 = 0;
     let mut sample_taken = false;
+    let violations_before = st.violations.len();
     for &k in &ks {
+        if st.violations.len() > violations_before {
+            // one violating run per group is enough to report; later runs of a broken solver
+            // only cost time (and a by-value finisher on a broken iterator may never return)
+            return out;
+        }
         account_site(st, base, r, k);
         for (pi, plan) in [FaultPlan::Transient(k), FaultPlan::Permanent(k)].into_iter().enumerate() {
             let mut drives: Vec<Drive> = vec![Drive::Poll, Drive::CollectVec];
@@ -349,6 +355,9 @@ pub fn run_group(seed: u64, gi: u64, base: &InstSpec, tier: &FTier, st: &mut Sta
             }
             if (k + gi) % 13 == 3 {
                 drives.push(Drive::Count);
+            }
+            if (k + gi) % 9 == 8 {
+                drives.push(Drive::PollThenNth(1 + ((k + gi) % 3) as u8));
             }
             if (k + gi) % 13 == 7 {
                 drives.push(Drive::Last);
@@ -386,6 +395,7 @@ pub fn run_group(seed: u64, gi: u64, base: &InstSpec, tier: &FTier, st: &mut Sta
                     }
                     if let Some(v) = res.violation {
                         st.violations.push(FoundViolation { id: (MODE_FGRID, gi, sub), spec, budgets: vec![budget], violation: v });
+                        return out;
                     } else if !sample_taken && s.fired > 0 && gi % 97 == 5 && k > 2 {
                         sample_taken = true;
                         let rec = execute(&spec, &[budget], &ExecOpts { record: true, keep_tail: 12, rec_polls: false, check_isolation: false, rec_items: false });
